@@ -1,6 +1,6 @@
 (* Extraction of the C11 model for the correspondence check.  ExtrOcamlBasic only: bool, option, list,
    prod map to OCaml's; nat stays the extracted inductive (ids are small). *)
 From Coq Require Import Extraction ExtrOcamlBasic.
-From PV Require Import Opt.Syntax Generated.C11_Passes Opt.Model Opt.Spec.
+From PV Require Import Opt.Syntax Generated.C11_Passes Opt.Model Opt.Spec Opt.SecondRun.
 Extraction Language OCaml.
-Extraction "opt_model.ml" opt opt_ty passes sc_collapse_single default_max_union stable_unit.
+Extraction "opt_model.ml" opt opt_ty passes sc_collapse_single default_max_union stable_unit second_run_stable.
